@@ -229,8 +229,12 @@ def run(ctx):
         "Broker._callFinished, the Deferred chain of Broker.doNextCall and CallUnslicer.reportViolation; what the application and the "
         "serializer do (method raises, result rejected, answer not serializable, target not formattable ...) are parameters of each "
         "delivery, observed on the real objects for the correspondence; Broker._doCall is one outcome bit (shape checked); Twisted's "
-        "Deferred chaining (a callback's exception goes to the next errback) is the interpreter's semantics; methods whose Deferred fires "
-        "later only reorder messages (the theorems count per request id; C10_history_replies gives the order of synchronous histories); "
+        "Deferred chaining (a callback's exception goes to the next errback) is the interpreter's semantics; a history (the list "
+        "handle_all folds over) lists the calls in the order the callee CONCLUDES them -- a rejected call while it is parsed, a delivery "
+        "when its chain reaches _callFinished / callFailed (later turns: queue order, stalls on gifts, methods whose Deferred fires later) "
+        "-- which the theorems quantify over (every list) and the correspondence observes (DeliveryLog.history; the messages are "
+        "compared in order); entering a request id in activeLocalCalls is folded into the same step (it happens on arrival: "
+        "unobservable for distinct ids); "
         "after the callee's own sendFailed the model stops -- the real callee may still run calls that had already arrived, what it hands "
         "to send() then never reaches the wire (DeliveryLog.sent_after_crash, excluded from the comparison)",
         "utf8_decode_ignore is exact only on prefixes of well-formed UTF-8 (proved to be the only inputs truncate gives it)",
@@ -1138,14 +1142,19 @@ Eval vm_compute in map (fun q => map hcode (drain false q)) queues.
 def corr_callee(ctx, impl, batches):
     """lib/Callee.v (the translated callFailed / _callFinished / doNextCall chain / reportViolation, interpreted) against the real
     callee Broker of every batch: per `call` sequence whose request id became known, everything the model takes as a parameter
-    is observed on the real objects (DeliveryLog); the model's messages (answer / aborted answer / error, per request id),
-    its activeLocalCalls and `connection up` are compared with what was really handed to Broker.send, the real table and
-    Broker.disconnected"""
+    is observed on the real objects (DeliveryLog); the model's messages (answer / aborted answer / error, per request id, IN
+    ORDER), its activeLocalCalls and `connection up` are compared with what was really handed to Broker.send, the real table and
+    Broker.disconnected.
+    The history given to the model is the observed order in which the callee CONCLUDED the calls (DeliveryLog.history: a
+    rejected call at CallUnslicer.reportViolation, i.e. while it is parsed; a delivery when its chain reaches _callFinished /
+    callFailed, a later turn), not the order of arrival: a call rejected after a delivery arrived is answered before that
+    delivery runs, so when the delivery's `error` cannot be serialized (crash path) the rejected call's `error` is already on
+    the wire -- in arrival order the model would put it after the crash and never write it."""
     cases, meta = [], []
     for bi, (specs, opts, r) in enumerate(batches):
         dl = r["deliveries"]
         ins = []
-        for x in dl["inbound"]:
+        for x in dl["history"]:
             if x["kind"] == "rejected":
                 ins.append("InRejected %s (mk %d false true false true 0 %s false false %s)" % (
                     coq_bool(x["abort"]), x["reqid"], coq_bool(x["log_local"]), coq_bool(x["nameable"])))
@@ -1196,15 +1205,15 @@ Eval vm_compute in map (fun ins => let s := handle_all ins cinit0 in (map mcode 
             crashed = bool(dl["crashes"])
             # (after a crash the real table is whatever connectionLost left of it: compared only while the connection is up;
             #  dl["sent"] = what was handed to send() BEFORE the crash -- later answers never reach the wire)
-            real = (sorted(tuple(x) for x in dl["sent"]), None if crashed else sorted(dl["active"]), not crashed)
-            model = (sorted(tuple(x) for x in msent), None if crashed else sorted(mactive), mup)
+            real = ([tuple(x) for x in dl["sent"]], None if crashed else sorted(dl["active"]), not crashed)
+            model = ([tuple(x) for x in msent], None if crashed else sorted(mactive), mup)
             if real != model:
                 nbad += 1
                 if nbad <= 2:
-                    ctx.fail("correspondence/callee-replies", "lib/Callee.v and the callee's Broker disagree on batch %s: inbound %s; model (messages "
-                             "(0 answer / 1 aborted answer / 2 error, reqID), activeLocalCalls, up) = %s, implementation %s" % (
-                                 json.dumps(specs), dl["inbound"], model, real),
-                             replay=dict(specs=specs, opts=opts, inbound=dl["inbound"], model=[list(map(list, model[0])), model[1], model[2]],
+                    ctx.fail("correspondence/callee-replies", "lib/Callee.v and the callee's Broker disagree on batch %s: history (calls in the "
+                             "order the callee concluded them) %s; model (messages (0 answer / 1 aborted answer / 2 error, reqID) in order, "
+                             "activeLocalCalls, up) = %s, implementation %s" % (json.dumps(specs), dl["history"], model, real),
+                             replay=dict(specs=specs, opts=opts, inbound=dl["inbound"], history=dl["history"], model=[list(map(list, model[0])), model[1], model[2]],
                                          impl=[list(map(list, real[0])), real[1], real[2]]), has_input=False)
     ctx.extra["callee_correspondence_cases"] = len(cases)
     ctx.extra["callee_correspondence_disagreements"] = nbad
